@@ -9,7 +9,7 @@ ID = "C09"
 LEVEL = "exploration"
 RULE = (
     "the finite matrix decorator {asynq, asynq(pure=True), async_proxy, asynq(sync_fn=), async_proxy(sync_fn=), "
-    "make_async_decorator, deduplicate, deduplicate stacked on asynq(sync_fn=), aretry, alru_cache, acached_per_instance} x binding {function, method via "
+    "make_async_decorator (over @asynq() and over a pure async function), deduplicate, deduplicate stacked on asynq(sync_fn=), aretry, alru_cache, acached_per_instance} x binding {function, method via "
     "instance, via an instance that is falsy (defines __len__ == 0), via class with explicit instance, via subclass "
     "instance, classmethod via class / instance / subclass, staticmethod via class / instance} (wrappers only on the "
     "bindings they are written for) x 6 argument patterns (positional, keyword, defaults omitted, keyword-only, all "
@@ -23,7 +23,7 @@ RULE = (
 ASSUMPTIONS = ["bodies are deterministic, so cached wrappers (alru_cache, acached_per_instance, deduplicate) return the twin's value on every call"]
 UNIT_TIMEOUT = {"quick": 200, "thorough": 1200}
 
-DECOS = ["asynq", "pure", "proxy", "pair", "proxy_pair", "mad", "dedup", "dedup_pair", "aretry", "alru", "per_instance"]
+DECOS = ["asynq", "pure", "proxy", "pair", "proxy_pair", "mad", "mad_pure", "dedup", "dedup_pair", "aretry", "alru", "per_instance"]
 BODIES = ["plain", "gen", "batch", "reenter"]
 NO_REENTER = ("proxy", "proxy_pair")  # their bodies only build a future; nothing runs "inside" them
 PATTERNS = [
@@ -53,6 +53,7 @@ SUPPORTED = {
     "pair": list(BINDINGS),
     "proxy_pair": ["function", "method_inst", "method_falsy_inst", "method_class_explicit", "method_subclass_inst"],
     "mad": list(BINDINGS),
+    "mad_pure": list(BINDINGS),
     "dedup": list(BINDINGS),
     # (stacking is not among the statement's combinations for classmethods: sync_fn is bound by the pair's own
     #  __get__, which an outer decorator's binder bypasses)
@@ -182,6 +183,16 @@ def build(deco, body, rt):
 
         return make_async_decorator(fn, wrapper_fn, "wrapping")
 
+    def mad_generic(fn):
+        from asynq import get_async_fn
+
+        @A(pure=True)
+        def wrapper_fn(*args, **kwargs):
+            v = yield get_async_fn(fn)(*args, **kwargs)
+            return ("wrapped", v)
+
+        return make_async_decorator(fn, wrapper_fn, "wrapping")
+
     def apply(kind, wrap=None):
         """Decorate a fresh body of the given kind; wrap = classmethod|staticmethod|None."""
         raw = mk_proxy_body(kind) if deco in ("proxy", "proxy_pair") else mk_body(kind)
@@ -200,6 +211,9 @@ def build(deco, body, rt):
             return async_proxy(sync_fn=mk_sync(kind))(fn)
         if deco == "mad":
             return mad(A()(fn))
+        if deco == "mad_pure":
+            # the same generic decorator over a PURE async function: the result is still an ordinary (non-pure) one
+            return mad_generic(A(pure=True)(fn))
         if deco == "dedup":
             return deduplicate()(A()(fn))
         if deco == "dedup_pair":
@@ -290,7 +304,7 @@ def run_cell(deco, body, binding, pat, argvals=None, shared=None):
         kw = {k: argvals[3 + j] for j, k in enumerate(sorted(kw))}
     full = lead + tuple(args)
     exp = twin(bound if binding not in ("function", "static_class", "static_inst") else None, *args, **kw)
-    if deco == "mad":
+    if deco in ("mad", "mad_pure"):
         exp = ("wrapped", exp)
     exp_sync = exp
     if deco in ("pair", "proxy_pair", "dedup_pair"):
